@@ -184,6 +184,32 @@ func runC14(c *engine.Ctx) {
 			}
 		}
 	}
+	// every attribute type code 0..255 that has no dedicated reader, as a foreign sender may include it: alone, twice
+	// in a row (types t and t+1) and at either end of the packet; what is decoded must be what is emitted again
+	for t := 0; t < 256; t++ {
+		if !c.Mine() {
+			continue
+		}
+		special := false
+		for _, st := range ref.AKASettable {
+			special = special || int(st) == t
+		}
+		if special {
+			continue
+		}
+		u := (t + 1) % 256
+		for _, st := range ref.AKASettable {
+			if int(st) == u {
+				u = (u + 1) % 256
+			}
+		}
+		rnd := ref.AKAAttr{T: ref.AtRAND, V: univ.Pat(16, t)}
+		a1 := ref.AKAAttr{T: uint8(t), V: []byte{byte(t), 0x5a}}
+		a2 := ref.AKAAttr{T: uint8(u), V: append([]byte{0, 1}, univ.Pat(4, t)...)}
+		for i, ats := range [][]ref.AKAAttr{{a1}, {rnd, a1}, {a1, rnd}, {a1, a2}, {rnd, a1, a2}, {a1, a2, rnd}, {a2, a1}} {
+			c14Wire(c, c14Case{K: "wire", Name: fmt.Sprintf("aka.foreign-type=%d/%d", t, i), E: &ref.EAP{Code: 1, ID: uint8(t), Method: 50, Sub: 1, AKA: ats}})
+		}
+	}
 	// map iteration order (instrumented build): encoding and attribute lookup must not depend on it
 	if engine.InstrumentedBuild() {
 		for mask := 0; mask < 128; mask++ {
@@ -307,7 +333,22 @@ func c14Wire(c *engine.Ctx, cs c14Case) {
 			want.AKA = append(want.AKA, ref.AKAAttr{T: uint8(t), V: v})
 		}
 	}
-	if got.Canon() != want.Canon() {
+	// attribute types without a dedicated reader keep their first two octets in a field GetValue does not show:
+	// for those, only the re-encoding below is compared
+	settableOnly := func(e ref.EAP) ref.EAP {
+		var keep []ref.AKAAttr
+		for _, a := range e.AKA {
+			for _, st := range ref.AKASettable {
+				if a.T == st {
+					keep = append(keep, a)
+				}
+			}
+		}
+		e.AKA = keep
+		return e
+	}
+	gs, ws := settableOnly(*got), settableOnly(want)
+	if gs.Canon() != ws.Canon() || len(got.AKA) != len(want.AKA) {
 		c.Violate("wire/values/"+tag, fmt.Sprintf("%s: packet %x decodes to %s, carries %s", cs.Name, trunc(wire, 60), trs(got.Canon()), trs(want.Canon())), cs)
 		return
 	}
